@@ -235,7 +235,7 @@ def gen_cases(ctx):
     return cases
 
 
-def bytecode_tie(ctx, runner, cases):
+def bytecode_tie(ctx, runner, cases, known=()):
     """model of codegen.rs vs the decoded .pyc for the fragment programs erg accepted.
     returns (list of mismatches, statistics)"""
     def unused_def(prog):
@@ -245,7 +245,9 @@ def bytecode_tie(ctx, runner, cases):
     # programs whose behaviour already differs are decided by the behavioural verdict (failing input / known class)
     frag = [c for c in cases if c.erg.accepted and c.flags[0] == 1 and c.erg.obs == c.model]
     # erg removes unused definitions before code generation (optimisation, property C12): not part of this model
-    todo = [c for c in frag if not unused_def(c.prog)]
+    # a program of a known-finding class may behave as it should by accident while its constants/wrappers already differ
+    in_known = lambda c: any(v == 1 and k in known for k, v in zip(CLASSES, c.flags[2:2 + len(CLASSES)]))
+    todo = [c for c in frag if not unused_def(c.prog) and not in_known(c)]
     if not todo:
         return [], {}
     p = sh([R.PY311, os.path.join(VERIF, "pylib", "dis_dump.py")] + [c.erg.pyc for c in todo], timeout=1200)
@@ -443,7 +445,7 @@ def run_with(ctx, runner, proof, bad_ops):
     ctx.cov["erg_run_path_checked"] = len(sample)
     model_validation(ctx, runner)
     # ---- bytecode tie
-    mism, stats = bytecode_tie(ctx, runner, cases)
+    mism, stats = bytecode_tie(ctx, runner, cases, known)
     ctx.cov["bytecode_tie"] = stats
     ctx.log("bytecode tie: %s, %d mismatches" % (stats, len(mism)))
     # ---- verdicts
